@@ -297,8 +297,9 @@ fn try_from_json_value(
                 .map(|value| Some(types::DataValue::Uint64(value)))
                 .map_err(|err| err.into()),
             types::DataType::Float => serde_json::from_value::<f32>(value)
-                .map(|value| Some(types::DataValue::Float(value)))
-                .map_err(|err| err.into()),
+                .map_err(Error::from)
+                .and_then(finite_f32)
+                .map(|value| Some(types::DataValue::Float(value))),
             types::DataType::Double => serde_json::from_value::<f64>(value)
                 .map(|value| Some(types::DataValue::Double(value)))
                 .map_err(|err| err.into()),
@@ -349,13 +350,26 @@ fn try_from_json_value(
                 .map(|array| Some(types::DataValue::Uint64Array(array)))
                 .map_err(|err| err.into()),
             types::DataType::FloatArray => serde_json::from_value::<Vec<f32>>(value)
-                .map(|array| Some(types::DataValue::FloatArray(array)))
-                .map_err(|err| err.into()),
+                .map_err(Error::from)
+                .and_then(|array| array.into_iter().map(finite_f32).collect())
+                .map(|array| Some(types::DataValue::FloatArray(array))),
             types::DataType::DoubleArray => serde_json::from_value::<Vec<f64>>(value)
                 .map(|array| Some(types::DataValue::DoubleArray(array)))
                 .map_err(|err| err.into()),
         },
         None => Ok(None),
+    }
+}
+
+/// A number beyond the range of f32 is converted to infinity by serde,
+/// it does not fit the data type float.
+fn finite_f32(value: f32) -> Result<f32, Error> {
+    if value.is_finite() {
+        Ok(value)
+    } else {
+        Err(Error::ParseError(
+            "number out of range for data type float".to_owned(),
+        ))
     }
 }
 
